@@ -37,11 +37,14 @@ Definition chk_leaf (tol eps : Q) (c : cfg) (step : Z) (shape : list Z) (param g
            forallb (fun '(a, b) => mclose_rel tol a b) (combine stats_m stats_a)) then 1%Z
   else
     let pg := if skip then grad else preconditioned_grad c shape grad preconds_a in
-    (* float32 rounding of the stored preconditioners and of the chain of products is amplified by
-       (prod_i n_i*max|P_i|) * max|g| / max|P g|: tolerance of everything downstream of P g *)
+    (* float32 rounding of the stored preconditioners and of the chain of products is amplified by the
+       cancellation in P g: (|P_1| x .. x |P_k| |g|) / |P g|, the same blocked product evaluated on
+       absolute values (block-aware and independent of the gradient's magnitude; the former bound
+       multiplied the norms of the preconditioners of ALL blocks and collapsed to 1 for large
+       gradients, where every |P_i| is small): tolerance of everything downstream of P g *)
     let amp := if skip then 1
-               else Qmax 1 (fold_left (fun a P => a * (inject_Z (Z.of_nat (length P)) * maxabs P))
-                                      preconds_a 1 * maxabs_vec grad
+               else Qmax 1 (maxabs_vec (preconditioned_grad c shape (map Qabs grad)
+                                                            (map (map (map Qabs)) preconds_a))
                             / Qmax (maxabs_vec pg) (1 # 1000000000000000000000000000000)) in
     let tolp := tol * Qmin amp 1024 in
     let '(u, s') := transform c eps step skip param grad pg sb in
